@@ -4,7 +4,7 @@
 set -u
 export GOFLAGS=-mod=mod GOPROXY=off GOSUMDB=off GOTOOLCHAIN=local
 D="$1"; DEMODIR="${2:-.}"; shift 2
-PROPS="${@:-C01 C04 C05 C07 C08 C10 C11 C12 C14 C15 C17 C18 C19 C20}"
+PROPS="${@:-C01 C02 C04 C05 C07 C08 C10 C11 C12 C14 C15 C16 C17 C18 C19 C20}"
 cd /repo || exit 2
 if [ -n "$(git status --porcelain)" ]; then echo "repo dirty"; exit 2; fi
 git apply "$D/patch.diff" || { echo "APPLY-FAILED"; exit 2; }
